@@ -107,7 +107,7 @@ func checkC06(job *Job, res *Result) {
 	if d, ok := job.Params["depth"].(float64); ok {
 		depth = int(d)
 	}
-	inits := []string{"empty", "prefix", "unrelated", "emptied", "big-empty", "big-diverged", "aligned"}
+	inits := []string{"empty", "prefix", "unrelated", "emptied", "big-empty", "big-diverged", "aligned", "respvalues"}
 	if job.Tier == "thorough" {
 		inits = append(inits, "big-prefix", "big-unrelated")
 	}
@@ -147,7 +147,7 @@ func checkC06(job *Job, res *Result) {
 				res.Cap("time budget hit; sequences are enumerated shortest first per initial state")
 				return
 			}
-			if job.Tier != "thorough" && len(seq) > 2 && (init == "aligned" || init == "big-diverged" || init == "big-empty") {
+			if job.Tier != "thorough" && len(seq) > 2 && (init == "aligned" || init == "big-diverged" || init == "big-empty" || init == "respvalues") {
 				continue // quick tier: the > 512 KiB initial states with sequences of length <= 2 (all lengths in the thorough tier)
 			}
 			init, seq := init, seq
@@ -196,6 +196,13 @@ func checkC06(job *Job, res *Result) {
 					f0.Stop()
 					r.write(true) // the leader moves on too
 					r.write(false)
+				case "respvalues":
+					// > 1 MiB of log whose values look like protocol themselves: wherever the follower
+					// has to find "the last complete command before offset n", it lands inside such a value
+					rv := strings.Repeat("*1\r\n$1\r\na\r\n", 36000)
+					r.lc.Do("SET", "lk", "rv1", "STRING", rv)
+					r.lc.Do("SET", "lk", "rv2", "STRING", rv+"*1\r\n$1\r\nb\r\n")
+					r.lc.Do("SET", "lk", "rv3", "STRING", rv)
 				case "aligned":
 					// the leader's log has a command that ends exactly at byte 524288 (the size of
 					// one checksum window) and goes on for 300 kB: a follower that holds a full copy
